@@ -76,7 +76,7 @@ def run(c, chk):
     may_fail = {}
     pathcache = {}
     for f in sorted(mod.funcs.values(), key=lambda x: x.name):
-        if f.name == 'cfg_parse_internal':
+        if f.name == 'cfg_parse_internal' or f.name in c.unknown_funcs:
             continue
         pathcache[f.name] = [p for p in ex.explore(f) if p.end == 'ret']
     for f_ in mod.funcs.values():
@@ -107,12 +107,18 @@ def run(c, chk):
     seen = set()
     nsite_ok = 0
     nfailpaths = 0
-    for f in sorted(set(f for f, _ in sites), key=lambda x: x.name):
+    subjects = set()
+    for f_, _ in sites:
+        for o in c.owners(f_.name):
+            g_ = c.func(o)
+            if g_ is not None:
+                subjects.add(g_)
+    for f in sorted(subjects, key=lambda x: x.name):
         if f.name == 'cfg_parse_internal':
             paths = [tr.path for s, tok, trs in model.table() for tr in trs]
         else:
             paths = pathcache[f.name]
-        fsites = [call for g, call in sites if g is f]
+        fsites = [call for g, call in sites if f.name in c.owners(g.name)]
         site_checked = {id(call): False for call in fsites}
         site_bad = set()
         for p in paths:
@@ -201,7 +207,7 @@ def run(c, chk):
     for f in sorted(mod.funcs.values(), key=lambda x: x.name):
         for call in f.calls():
             n = call.callee_name()
-            if n is None or n not in may_fail or n in ALLOC:
+            if n is None or n not in may_fail or n in ALLOC or n in c.unknown_funcs or f.name in c.unknown_funcs:
                 continue
             nprop += 1
             if result_used(f, call):
